@@ -1979,6 +1979,12 @@ coap_retransmit(coap_context_t *context, coap_queue_t *node) {
 
     if (node->is_mcast) {
       coap_session_connected(node->session);
+      /*
+       * The node was put back into the send queue above.  Taking it out
+       * again must not shorten the wait of what is queued behind it.
+       */
+      if (node->next)
+        node->next->t += node->t;
       coap_delete_node_lkd(node);
       return COAP_INVALID_MID;
     }
